@@ -67,6 +67,18 @@ func reach(x *xmss.XMSS, c *crashCase) error {
 				return err
 			}
 			cur++
+		case "jump-then-signs":
+			// one jump to just below the crash index, the last 1..3 leaves are consumed by signatures (so the index
+			// that the key stores when it "crashes" was written by the signing path, not by SetIndex)
+			k := 1 + uint32(c.MixSeed%3)
+			if c.Crash > k && cur == 0 {
+				cur = c.Crash - k
+				x.SetIndex(cur)
+			}
+			if _, err := x.Sign(msgAt(c.Seed, cur)); err != nil {
+				return err
+			}
+			cur++
 		case "mixed+refusals":
 			// like mixed, but the caller also makes calls that are refused (too high, rewinds) and carries on
 			switch next(4) {
@@ -272,7 +284,7 @@ func TestCrashRebuildSeam(t *testing.T) {
 	if seamOn == nil {
 		t.Skip("needs the verif hooks")
 	}
-	r.Rule("cheap-leaf seam, h=10 EVERY crash index, h=12 every 4th (thorough: h=12 every index, h=14 every 8th): original reaches i by signatures+single steps or a drawn mix of signatures and jumps, rebuilt = constructor (route rotating) + one SetIndex(i); oracle as in the real engine; non-trivial = i > 0, distinct by enumeration (hash,h,i,way)")
+	r.Rule("cheap-leaf seam, h=10 EVERY crash index, h=12 every 4th (thorough: h=12 every index, h=14 every 8th), h=18 at crash indices around 2^16 and 2^17 (reached by a jump, or a jump and then 1..3 signatures): original reaches i by signatures+single steps or a drawn mix of signatures and jumps, rebuilt = constructor (route rotating) + one SetIndex(i); oracle as in the real engine; non-trivial = i > 0, distinct by enumeration (hash,h,i,way)")
 	type spec struct{ h, stride int }
 	specs := []spec{{10, 1}, {12, 4}}
 	if r.Thorough() {
@@ -310,6 +322,22 @@ func TestCrashRebuildSeam(t *testing.T) {
 		}
 		if sp.stride == 1 {
 			r.Exhaustive(fmt.Sprintf("every crash index of h=%d (%s), cheap leaves", sp.h, pu.HashName(hf)))
+		}
+	}
+	// a tall key (h = 18): crash indices around 2^16 and 2^17, where the stored index needs its third byte; the
+	// original gets there by one jump, or by a jump followed by 1..3 signatures
+	tall := []uint32{65535, 65536, 65537, 131071, 131072, 65536 + 255, 65536 + 256}
+	for k, i := range tall {
+		for wi, w := range []string{"jump-then-signs", "jump"} {
+			n++
+			if !r.Mine(n) {
+				continue
+			}
+			c := &crashCase{Mode: "seam", Hash: uint(pu.Hashes[(k+wi)%3]), H: 18, Seed: pu.DetBytes(r.Seed()*17+18, 48), Crash: i, Way: w, MixSeed: r.Seed() + uint64(k), Route: routes[(k+wi)%3], Observable: false}
+			key, msg := runCrash(r, c)
+			r.NonTrivialEnum(1)
+			r.Count("h18_way_"+w, 1)
+			r.Check(t, key == "", key, c, "%s", msg)
 		}
 	}
 }
